@@ -193,7 +193,7 @@ pub mod verif_hooks {
     use crate::config::Config;
     use crate::errors::Result;
 
-    pub fn is_num_backup(base_file: &str, candidate: &Path) -> Option<u64> {
+    pub fn is_num_backup(base_file: &std::ffi::OsStr, candidate: &Path) -> Option<u64> {
         super::is_num_backup(base_file, candidate)
     }
     pub fn has_backup(file: &Path) -> Result<bool> {
